@@ -157,6 +157,33 @@ func c11Run(c *runner.Ctx) {
 			c.Violate("repersist:"+sg.Kind, fmt.Sprintf("persisting a %s segment again does not reproduce the file it was loaded from (%s)", sg.Kind, diffAt(sg.Bytes, pb)), desc())
 			continue
 		}
+		// the same on a segment object whose VERY FIRST WriteTo is the failing one (freshly loaded copy, or a fresh build)
+		if len(pb) > 0 {
+			var fresh *gen.Seg
+			var ferr error
+			if sg.Kind == "built" && sg.Docs != nil && si%2 == 0 {
+				fresh, ferr = gen.BuildSeg(sg.Docs, sg.Mode)
+			} else {
+				t := &gen.Seg{X: sg.X, Mode: sg.Mode, Bytes: pb}
+				fresh, ferr = t.Reload(c.TmpDir, si%3 == 0)
+			}
+			if ferr == nil {
+				fw := &failWriter{at: c.R.Intn(len(pb))}
+				if _, err := fresh.S.WriteTo(fw, nil); err != nil {
+					rb, rn, rerr := gen.Persist(fresh.S)
+					switch {
+					case rerr != nil:
+						c.Violate("first-write-failed-retry-error:"+fresh.Kind, "WriteTo after a failed first WriteTo failed on a healthy writer: "+firstLine(rerr.Error()), desc())
+					case !c11CheckFile(c, "Segment.WriteTo("+fresh.Kind+") after its first WriteTo failed", rb, rn, desc):
+					case !bytes.Equal(rb, pb):
+						c.Violate("first-write-failed-retry-differs:"+fresh.Kind, "WriteTo after a failed first WriteTo produced a different file ("+diffAt(pb, rb)+")", desc())
+					default:
+						c.Inc("retries_after_failed_first_write_identical."+fresh.Kind, 1)
+					}
+				}
+				fresh.Close()
+			}
+		}
 		// chain load -> write -> load -> write, memory- and file-backed alternating
 		cur := b
 		for step := 0; step < 3; step++ {
